@@ -64,8 +64,8 @@ class UBlock(nn.Module):
         super().__init__()
         import unit_scaling as uu
 
-        self.l1 = uu.Linear(8, 8)
-        self.l2 = uu.Linear(8, 8, bias=True)
+        self.l1 = uu.Linear(8, 12)     # non-square: constraints give different scales
+        self.l2 = uu.Linear(12, 8, bias=True)
 
     def forward(self, x):
         import unit_scaling.functional as U
